@@ -450,7 +450,12 @@ use regex_syntax::hir::{ClassUnicode, ClassUnicodeRange};
 
 /// The regex crate's reading of a pattern (same parser defaults as `Regex::new`).
 pub fn parse(pattern: &str) -> Result<Hir, String> {
-    regex_syntax::Parser::new().parse(pattern).map_err(|e| e.to_string())
+    match regex_syntax::Parser::new().parse(pattern) {
+        Ok(h) => Ok(h),
+        // the nesting limit is a resource limit of the parser, not a syntax verdict
+        Err(e) if e.to_string().contains("nest") => parse_big(pattern),
+        Err(e) => Err(e.to_string()),
+    }
 }
 
 /// Parse with a raised nesting limit (for very large, syntactically valid patterns).
@@ -542,5 +547,19 @@ pub fn compare_default(a: &Nfa, b: &Nfa) -> Result<Diff, String> {
     match compare(a, b, 200_000) {
         Ok((d, _)) => Ok(d),
         Err(LangError::Unsupported(s)) => Err(s),
+    }
+}
+
+/// `Regex::new` as the verdict on SYNTAX: a pattern that is merely too big for the default size
+/// limit (a resource limit, not part of any property) is retried with a raised limit.
+pub fn compile_regex(pattern: &str) -> Result<regex::Regex, String> {
+    match regex::Regex::new(pattern) {
+        Ok(r) => Ok(r),
+        Err(regex::Error::CompiledTooBig(_)) => regex::RegexBuilder::new(pattern)
+            .size_limit(1 << 31)
+            .dfa_size_limit(1 << 27)
+            .build()
+            .map_err(|e| format!("RESOURCE: {}", e.to_string().lines().last().unwrap_or(""))),
+        Err(e) => Err(e.to_string().lines().last().unwrap_or("").to_string()),
     }
 }
